@@ -36,8 +36,13 @@ CHECKS["C20"] = {
     "note": "whole-function symbolic exploration of the heuristic search is out of reach (NRA with atan2/sin/cos at every branch: probe in DESIGN); soundness does not depend on the heuristics, only on the verifier, which is what is decided. Arc radii under R outside; floats as reals; snap band assumed empty; tol>=1e-6 for the completeness clauses.",
     "design_ref": "DESIGN.md 2/C20",
 }
+CHECKS["C12"] = {
+    "text": "arc_to_cubic.py in five symbolic parts: degenerate cases (all arguments real); the _arc_to_cubic loop for an arbitrary centre parametrisation (segment count via ceil axioms + integer enumeration, every control/end point equal to the standard circular-arc cubic construction mapped onto the ellipse, last end point exactly the arc end); the 0.03% radial accuracy of the control points the real loop body yields, as a polynomial query in u=tan(D/4), s in [0,1] decided by nlsat; radii correction; centre computation for base arcs scaled by a symbolic k>0 (all magnitudes) and the sweep-sign / full-turn clauses for general symbolic arcs.",
+    "note": "sin/cos/tan/atan2/sqrt uninterpreted (values of libm outside); float constants snapped to the rationals they round (perturbation < 1e-14, absorbed by a 1e-9 margin); |theta_arc| >= pi <=> large-arc not encoded; centre checked on 3-4 base arcs x symbolic scale rather than for arbitrary arcs (general query is out of solver reach: probe in DESIGN).",
+    "design_ref": "DESIGN.md 2/C12",
+}
 NOT_APPLICABLE = {
     "C17": "termination/time-bound over cyclic reference graphs and libxml2 entity loading: no numeric or byte-level input to make symbolic, non-termination is not an assertion a bounded symbolic path can refute (budget exhausted = inconclusive); enumerating reference graphs under a watchdog would be a different technique family (DESIGN.md section 3)",
 }
-for _p in ["C01","C02","C03","C04","C05","C06","C07","C08","C10","C12","C14","C15","C16"]:
+for _p in ["C01","C02","C03","C04","C05","C06","C07","C08","C10","C14","C15","C16"]:
     NOT_APPLICABLE.setdefault(_p, PENDING)
